@@ -84,8 +84,15 @@ def vectors(ctx, streams):
         for _ in range(ctx.pick(4, 30)):
             k = rng.randint(3, max(3, n // 3))
             cutsets.append(sorted(rng.sample(range(1, n), min(k, n - 1))))
-        for cuts in cutsets:
-            V.append({"fn": "stream.run", "kind": kind, "frs": frs, "cuts": list(cuts)})
+        # the piaware variant of the Beast reader shares the framing code; it takes a logarithm of the signal-level byte, so it
+        # is driven only with streams whose signal bytes are non-zero (a zero byte raises ValueError there - outside the
+        # listed properties, noted in DESIGN.md 9.5)
+        rssi_ok = kind == "beast" and all(len(fr["body"]) > 6 and fr["body"][6] != 0 for fr in frs)
+        for k, cuts in enumerate(cutsets):
+            v = {"fn": "stream.run", "kind": kind, "frs": frs, "cuts": list(cuts)}
+            if rssi_ok and k % 5 == 0:
+                v["reader"] = "rssi"
+            V.append(v)
     for _ in range(ctx.pick(300, 20000)):
         kind = rng.choice(["beast", "beast", "raw", "skysense"])
         frs = random_stream(rng, kind)
